@@ -1083,15 +1083,11 @@ KNOWN_CRASHES = {
     ('NotImplementedError', 'draw'): 'colour-to-srgb-not-implemented',
     ('NotImplementedError', 'darken'): 'colour-to-srgb-not-implemented',
     ('NotImplementedError', 'lighten'): 'colour-to-srgb-not-implemented',
-    # the stop positions of a gradient are computed (0 -> 0px, em -> px) for background-image only
-    ('AssertionError', 'process_color_stops>percentage'): 'gradient-stop-length-not-computed',
 }
 
 PAGE_CSS = '<style>@page{size:100px}body{margin:0;font-size:10px}</style>'
 CRASH_INPUTS = {
     'colour-to-srgb-not-implemented': (PAGE_CSS + '<div style="border:4px groove lab(50 20 30)">a</div>', {}),
-    'gradient-stop-length-not-computed': (
-        PAGE_CSS + '<div style="border:3px solid;border-image:linear-gradient(red 0, blue) 1">a</div>', {}),
 }
 
 
@@ -1234,6 +1230,10 @@ REGRESSION_INPUTS = {
     'alpha-state-stale-cache': (ALPHA_STATE_HTML, {'uncompressed_pdf': True}, alpha_state_regression),
     'dests-names-unsorted': (DESTS_HTML, {}, dests_regression),
     'embedded-files-sorted-by-serialised-key': (PAGE_CSS + '<p>a</p>', EMBEDDED_OPTS, embedded_files_regression),
+    'gradient-stop-length-not-computed': (
+        PAGE_CSS + '<div style="border:3px solid;border-image:linear-gradient(red 0, blue) 1">a</div>'
+        '<p style="mask-border:linear-gradient(red 1em, rgba(0,0,255,0.5)) 1;background:red">b</p>'
+        '<ul><li style="list-style-image:radial-gradient(red 0, blue 1em)">c</li></ul>', {}, None),
     'emc-on-group-stream': (
         PAGE_CSS + '<div style="opacity:.5;transform:scale(0)">a</div><p>b</p>', {'pdf_variant': 'pdf/ua-1'}, None),
 }
